@@ -140,7 +140,7 @@ func top(r *vf.Run) {
 	}
 	add("l2", false, r.N(60, 1400), r.N(30, 200))
 	add("l2", true, r.N(24, 400), r.N(12, 100))
-	add("l3", false, r.N(4, 60), r.N(4, 30))
+	add("l3", false, r.N(8, 60), r.N(8, 30))
 	par := 3
 	if r.Thorough() {
 		par = 4
@@ -315,6 +315,7 @@ type caseCfg struct {
 	PrefetchChunk int64
 	PrefetchSize  int64
 	AsyncSize     int64
+	AsyncFamily   string // stall scenario: threshold "below" / "above" the real prefetch range, or ""
 	SyncAdd       bool
 	FSMem, HTTPMem bool
 	LRU, Fds      int
@@ -331,8 +332,8 @@ type caseCfg struct {
 }
 
 func (c caseCfg) String() string {
-	return fmt.Sprintf("store=%s blobchunk=%d prefetchchunk=%d prefetchsize=%d async=%d syncadd=%v fsmem=%v httpmem=%v lru=%d fds=%d maxconc=%d scenario=%s callers=%d verifyfirst=%v repeat=%v priobursts=%d fault=%d/%s thenbg=%v probe=%v",
-		c.Store, c.BlobChunk, c.PrefetchChunk, c.PrefetchSize, c.AsyncSize, c.SyncAdd, c.FSMem, c.HTTPMem, c.LRU, c.Fds, c.MaxConc, c.Scenario, c.Callers, c.VerifyFirst, c.Repeat, c.PrioBursts, c.FaultK, c.FaultMode, c.ThenBG, c.Probe)
+	return fmt.Sprintf("store=%s blobchunk=%d prefetchchunk=%d prefetchsize=%d async=%d(%s) syncadd=%v fsmem=%v httpmem=%v lru=%d fds=%d maxconc=%d scenario=%s callers=%d verifyfirst=%v repeat=%v priobursts=%d fault=%d/%s thenbg=%v probe=%v",
+		c.Store, c.BlobChunk, c.PrefetchChunk, c.PrefetchSize, c.AsyncSize, c.AsyncFamily, c.SyncAdd, c.FSMem, c.HTTPMem, c.LRU, c.Fds, c.MaxConc, c.Scenario, c.Callers, c.VerifyFirst, c.Repeat, c.PrioBursts, c.FaultK, c.FaultMode, c.ThenBG, c.Probe)
 }
 
 type kase struct {
@@ -414,6 +415,29 @@ func newCase(r *vf.Run, idx int, race bool, rng *prng.R) *kase {
 			cfg.Scenario = "clean"
 		} else if cfg.BlobChunk > 4096 {
 			cfg.BlobChunk = 1000
+		}
+	}
+	if cfg.Scenario == "stall" {
+		// The async threshold is compared with the size REALLY prefetched (landmark offset,
+		// or the configured size capped at the blob size), not with the configured size.
+		// Half of the stall cases put the threshold between the two ("below": no early
+		// release allowed although configured size > threshold), a quarter the mirror
+		// ("above": real range > threshold, early release is legitimate), the rest as drawn.
+		real := c.ls.LandmarkOffset
+		if c.ls.Landmark == lx.LmNone {
+			real = size
+		}
+		switch fam := rng.Intn(4); {
+		case fam < 2 && real > 0:
+			cfg.AsyncSize = real + int64(rng.Pick(0, 1, 100))
+			cfg.PrefetchSize = cfg.AsyncSize + int64(rng.Pick(1, 1000, 10<<20))
+			cfg.AsyncFamily = "below"
+		case fam == 2 && real > 1:
+			cfg.AsyncSize = []int64{1, (real + 1) / 2, real - 1}[rng.Intn(3)]
+			if c.ls.Landmark == lx.LmNone {
+				cfg.PrefetchSize = size * int64(rng.Pick(1, 2))
+			}
+			cfg.AsyncFamily = "above"
 		}
 	}
 	c.cfg = cfg
@@ -905,6 +929,11 @@ func (c *kase) stallPhase() {
 		}
 	}
 	c.count("wait_calls", nw)
+	// an early release by the async threshold is legitimate only when the size really
+	// prefetched exceeds the threshold (real < 0: unknown to the harness, not judged)
+	real := c.ls.RealPrefetchSize(c.cfg.PrefetchSize)
+	asyncLegit := c.cfg.AsyncSize > 0 && (real < 0 || real > c.cfg.AsyncSize)
+	earlyNil := false
 	timedOut := 0
 	for _, w := range res {
 		if w.err != nil {
@@ -915,8 +944,8 @@ func (c *kase) stallPhase() {
 		switch {
 		case w.err != nil:
 			c.count("wait_timeout_path", 1)
-		case c.cfg.AsyncSize > 0:
-			c.count("wait_nil_while_stalled_async_possible", 1)
+		case asyncLegit:
+			c.count("wait_nil_while_stalled_async_legitimate", 1)
 		case timedOut > 0:
 			// Slack: the Waiter whose timer fires marks the wait as done for everybody, so a
 			// concurrent Waiter may see "done" (nil) instead of its own timeout: it still
@@ -927,8 +956,15 @@ func (c *kase) stallPhase() {
 			// Slack: with an async threshold the waiter is released early on purpose; without
 			// one (threshold 0) and with no Waiter having timed out, nil means "prefetch
 			// ended", which it cannot have: its request is still stalled.
-			c.violate("wait:returned-nil-before-prefetch-ended", "WaitForPrefetchCompletion returned nil (completion) while the prefetch was still stalled in the registry, no async threshold configured and no Waiter hit the 1 s timeout")
+			if c.cfg.AsyncSize == 0 {
+				c.violate("wait:returned-nil-before-prefetch-ended", "WaitForPrefetchCompletion returned nil (completion) while the prefetch was still stalled in the registry, no async threshold configured and no Waiter hit the 1 s timeout")
+			} else {
+				earlyNil = true // judged below, once the real size has been cross-checked
+			}
 		}
+	}
+	if c.cfg.AsyncFamily != "" && !blocked {
+		c.strong = append(c.strong, "E2-async-"+c.cfg.AsyncFamily)
 	}
 	if !blocked {
 		c.strong = append(c.strong, "E2")
@@ -942,6 +978,15 @@ func (c *kase) stallPhase() {
 	inj.armed.Store(false)
 	c.w.Reg.SetScript(nil)
 	c.step("Waiters=%d released; Prefetch->%v", nw, perr)
+	if earlyNil {
+		if got := c.l.Info().PrefetchSize; perr == nil && got != real {
+			c.r.Inconclusive("harness: the real prefetch size of the layer description differs from Info().PrefetchSize")
+		} else {
+			c.violate("wait:returned-nil-before-prefetch-ended:async-threshold-not-exceeded",
+				fmt.Sprintf("WaitForPrefetchCompletion returned nil while the prefetch was still stalled in the registry and no Waiter hit the 1 s timeout: the async threshold (%d) releases waiters early only when the size really prefetched exceeds it, but that size is %d (configured size %d, blob %d, landmark offset %d)",
+					c.cfg.AsyncSize, real, c.cfg.PrefetchSize, c.size, c.ls.LandmarkOffset))
+		}
+	}
 	if err := c.l.WaitForPrefetchCompletion(); err != nil {
 		c.violate("wait:timeout-after-prefetch-ended:after-stall", fmt.Sprintf("Prefetch has returned (%v) but a further Wait reports: %v", perr, err))
 	}
